@@ -121,7 +121,8 @@ func solve(file string, timeoutS int, wantUnsat int) solveResult {
 	return res
 }
 
-func writeQuery(workDir, prelude string, o *Obligation) string {
+func writeQuery(workDir string, pre *Prelude, o *Obligation) string {
+	prelude := pre.For(o.Query, o.NoLemmas)
 	var b strings.Builder
 	b.WriteString("; obligation " + o.Name + "\n; " + o.Where + "\n; " + o.Src + "\n")
 	b.WriteString("(set-option :produce-models true)\n(set-logic ALL)\n")
@@ -141,7 +142,7 @@ func writeQuery(workDir, prelude string, o *Obligation) string {
 	return file
 }
 
-func dischargeAll(obls []*Obligation, prelude, workDir string, timeoutS, workers, wantUnsat int) {
+func dischargeAll(obls []*Obligation, prelude *Prelude, workDir string, timeoutS, workers, wantUnsat int) {
 	os.MkdirAll(workDir, 0o755)
 	var wg sync.WaitGroup
 	sem := make(chan struct{}, workers)
